@@ -449,6 +449,19 @@ func genRouteCase(w *wire.World, g *sip.Gen, i int) *routeCase {
 	method := []string{"OPTIONS", "MESSAGE", "INVITE", "REGISTER", "INFO", "PUBLISH"}[g.R.Intn(6)]
 	m := wire.StdRequest(c.id, method, ruri, c.path.Proto, ua.IP, wire.UDPPort)
 	wire.SetHeader(m, "To", to)
+	if g.R.Intn(4) == 0 {
+		// the request has passed a next hop before: its address (or name) sits in a
+		// lower Via entry, which teaches the service how that hop is reached
+		h := w.Hops[g.R.Intn(len(w.Hops))]
+		host := []string{h.IP, h.IP, h.Name}[g.R.Intn(3)]
+		for k, x := range m.Headers {
+			if sip.Canon(x.Name) == "via" {
+				m.Headers[k].Value += fmt.Sprintf(", SIP/2.0/%s %s:%d;branch=z9hG4bK%s", []string{"UDP", "TCP"}[g.R.Intn(2)], host, wire.NextHopPortA, g.Alnum(6, 10))
+				break
+			}
+		}
+		cell = append(cell, "teaches-hop")
+	}
 	if len(entries) > 0 {
 		texts := make([]string, len(entries))
 		for k, e := range entries {
